@@ -250,6 +250,12 @@ def run(fx, tier):
                     W = {'unsigned int': 32, 'unsigned long': 64, 'unsigned short': 16, 'unsigned char': 8}.get(fld.get('canon'))
     if W is None:
         raise AnalysisBroken('width of write_req::_serial_num not recognised')
+    # the window of the wrap-around order is half the counter range, and the distance between two pending packets is
+    # bounded only by the traffic initiated in between (every publish of any QoS takes a serial number): below 32 bits
+    # the window (e.g. 32768 for 16 bits) is reached by ordinary QoS 0 traffic while one QoS 1/2 publish is unacknowledged.
+    # 2^31 publishes initiated during one outstanding exchange is treated as out of reach.
+    v.check(W >= 32, 'R-ARITH', 'serial number width', 'serial numbers are %d bits wide: the ordering window is 2^%d publishes (at least 2^31 required)' % (W, W - 1),
+            key='C06:R-ARITH:serial-width')
     seen_tu = set()
     for f in ops:
         if f.tu in seen_tu:
